@@ -781,14 +781,32 @@ def outcomes_in(node, tvar):
                 out.append(('handon', unparse(c.func), c))
         elif isinstance(c.func, ast.Attribute) and \
                 c.func.attr in ('append', 'add') and len(c.args) == 1 and \
-                isinstance(c.args[0], ast.Name) and c.args[0].id == tvar and \
-                I.is_path(c.func.value):
-            out.append(('retain', unparse(c.func.value), c))
+                isinstance(c.args[0], ast.Name) and c.args[0].id == tvar:
+            recv = c.func.value
+            # d.setdefault(k, list()).append(t) == d[k].append(t)
+            if isinstance(recv, ast.Call) and \
+                    isinstance(recv.func, ast.Attribute) and \
+                    recv.func.attr == 'setdefault' and len(recv.args) == 2 \
+                    and I.is_path(recv.func.value):
+                recv = ast.Subscript(value=recv.func.value, slice=recv.args[0],
+                                     ctx=ast.Load())
+            if I.is_path(recv):
+                out.append(('retain', unparse(recv), c))
     if isinstance(a, ast.Assign) and isinstance(a.value, ast.Name) and \
             a.value.id == tvar:
         for t in a.targets:
             if isinstance(t, ast.Subscript) and I.is_path(t.value):
                 out.append(('retain', unparse(t.value), a))
+    # d[k] = d.get(k, []) + [t]  /  d[k] = d[k] + [t]
+    if isinstance(a, ast.Assign) and isinstance(a.value, ast.BinOp) and \
+            isinstance(a.value.op, ast.Add) and \
+            isinstance(a.value.right, (ast.List, ast.Tuple)) and \
+            len(a.value.right.elts) == 1 and \
+            isinstance(a.value.right.elts[0], ast.Name) and \
+            a.value.right.elts[0].id == tvar:
+        for t in a.targets:
+            if isinstance(t, ast.Subscript) and I.is_path(t.value):
+                out.append(('retain', unparse(t), a))
     return out
 
 
@@ -886,6 +904,10 @@ def _one_outcome(rep, rid, f, g, hn, tvar, flags, cname):
     def transfer(node, edge, st):
         cnt, fl = st
         a = node.ast
+        if node.kind == 'test' and edge.label in 'TF' and \
+                isinstance(a, ast.Constant):
+            if bool(a.value) != (edge.label == 'T'):
+                return None
         if node.kind == 'test' and edge.label in 'TF' and \
                 isinstance(a, ast.Name) and a.id in flags:
             known = dict(fl).get(a.id)
@@ -2088,4 +2110,16 @@ SILENT = [
         (_R, "                    pid   = self._pids[self._idx]\n", "                    pid   = self._pids[self._idx % len(self._pids)]\n")]),
     dict(name='RoundRobin: wrap test with the length on the left', edits=[
         (_R, "                    if self._idx >= len(self._pids):", "                    if len(self._pids) <= self._idx:")]),
+    dict(name='corpus r2: pools filled through setdefault(..).append', edits=[
+        (_B, "                        if pid not in self._early:\n                            self._early[pid] = list()\n                        self._early[pid].append(task)\n",
+             "                        self._early.setdefault(pid, list()).append(task)\n"),
+        (_B, "            if pid not in self._tasks:\n                self._tasks[pid] = list()\n            self._tasks[pid].append(uid)\n",
+             "            self._tasks.setdefault(pid, list()).append(uid)\n")]),
+    dict(name='early pool entry rebuilt by concatenation', edits=[
+        (_B, "                        if pid not in self._early:\n                            self._early[pid] = list()\n                        self._early[pid].append(task)\n",
+             "                        self._early[pid] = self._early.get(pid, []) + [task]\n")]),
+    dict(name='corpus r2: work() with inverted tests and early continues', edits=[
+        (_B, "                if pid:\n                    # this task is bound already (it is early-bound), so we\n",
+             "                if not pid:\n                    to_schedule.append(task)\n                    continue\n\n                if True:\n                    # this task is bound already (it is early-bound), so we\n"),
+        (_B, "                else:\n                    to_schedule.append(task)\n", "")]),
 ]
